@@ -29,8 +29,8 @@ INITS = [F(0), F(-2001, 2), F(250)]
 def bound(tier, seed):
     return dict(
         changes=dict(quick="2..3", thorough="2..5")[tier],
-        grid=dict(quick="half-beat, 16 beats", thorough="quarter-beat, 16 beats (n<=3); half-beat 12 beats and quarter-beat 8 beats (n=4); half-beat 12 beats (n=5)")[tier],
-        metronomes=[4, 3] if tier == "quick" else [4, 3, 5, 7],
+        grid=dict(quick="quarter-beat (2 changes) / half-beat (3 changes), 16 beats", thorough="quarter-beat, 16 beats (n<=3); half-beat 12 beats and quarter-beat 8 beats (n=4); half-beat 12 beats (n=5)")[tier],
+        metronomes=[4, 3, 5, 7],
         bpms=[str(b) for b in BPMS] + (["173.5"] if tier == "thorough" else []),
         eps_alphabet=[str(e) for e in EPS],
         entry_points=["reseat_bpm_changes_snap", "from_bpm_changes_snap(reseat=True)", "TimingMap.reseat()"],
@@ -41,9 +41,9 @@ def lists(tier):
     out = []
     bp = BPMS + ([F(347, 2)] if tier == "thorough" else [])
     step = F(1, 4) if tier == "thorough" else F(1, 2)
-    for m in (4, 3) if tier == "quick" else (4, 3, 5, 7):
+    for m in (4, 3, 5, 7):
         grid = [step * k for k in range(1, int(16 / step) + 1)]
-        for pos in grid:
+        for pos in grid if tier == "thorough" else [F(k, 4) for k in range(1, 65)]:
             for b0, b1 in itertools.product(bp, repeat=2):
                 out.append(("grid", m, [(b0, F(0)), (b1, pos)]))
         g3 = grid if tier == "quick" else grid[::1]
